@@ -135,6 +135,13 @@ func constInt(e *E, bind func(string) (val.V, bool)) (int, error) {
 
 func applyOp(in *Rel, op *Op, db map[string]*RTable, bind func(string) (val.V, bool)) (*Rel, error) {
 	amb := dupNames(in.Cols)
+	if op.K != "join" && len(amb) > 0 {
+		// a reference to a column name the input carries twice has no meaning,
+		// whether or not the instance has a row to evaluate it on
+		if n := ambiguousRef(op, amb, bind); n != "" {
+			return nil, ierr("operator %s refers to column %q, which its input has more than once", op.K, n)
+		}
+	}
 	ctxOf := func(vals []val.V) *EvalCtx { return &EvalCtx{Row: rowEnv(in.Cols, vals, amb), Bind: bind} }
 	out := &Rel{Cols: in.Cols, Weak: in.Weak, Count: in.Count, Effects: in.Effects}
 	// mapRows applies f to every row, keeping the partition.
@@ -679,4 +686,43 @@ func (r *Rel) String() string {
 		fmt.Fprintf(&sb, "\n    group %d: %s", i, groupString(g))
 	}
 	return sb.String()
+}
+
+// ambiguousRef names a column an operator's expressions refer to that is in
+// amb (and not bound), or "".
+func ambiguousRef(op *Op, amb map[string]bool, bind func(string) (val.V, bool)) string {
+	found := ""
+	var walk func(e *E)
+	walk = func(e *E) {
+		if e == nil || found != "" {
+			return
+		}
+		if e.K == "name" && len(e.Parts) == 1 && amb[e.Parts[0].Name] {
+			bound := false
+			if bind != nil && !e.Parts[0].Quoted {
+				_, bound = bind(e.Parts[0].Name)
+			}
+			if !bound {
+				found = e.Parts[0].Name
+				return
+			}
+		}
+		for _, k := range e.Kids {
+			walk(k)
+		}
+	}
+	walk(op.X)
+	for _, t := range op.Terms {
+		walk(t.X)
+	}
+	for _, c := range op.Cols {
+		if c.X == nil && c.Name != nil && amb[c.Name.Name] {
+			return c.Name.Name
+		}
+		walk(c.X)
+	}
+	for _, c := range op.By {
+		walk(c.X)
+	}
+	return found
 }
